@@ -207,6 +207,41 @@ def g_go_in_lib(k, b, m):
             ("lib", "lib.go", ["func GoOther%d() {" % k, "\tgo other.E%d() %s" % (k, m), "}"])], ["lib.GoOther%d()" % k]
 
 
+def g_in_generic_static(k, b, m):
+    return [("main", "scen.go", ["func e%d() {" % k] + _entry_body(b) + ["}", "",
+                                 "func start%d[X any](_ X) {" % k, "\tgo e%d() %s" % (k, m), "}"])], ["start%d[int](1)" % k]
+
+
+def g_in_generic_invoke(k, b, m):
+    # invoke-mode in the generic body, static call of (w).Run in the instance start[w]
+    return [("main", "scen.go", ["type r%d interface{ Run() }" % k, "", "type w%d struct{}" % k, "",
+                                 "func (w%d) Run() {" % k] + _entry_body(b) + ["}", "",
+                                 "func start%d[T r%d](t T) {" % (k, k), "\tgo t.Run() %s" % m, "}"])], ["start%d(w%d{})" % (k, k)]
+
+
+def g_in_generic_closure(k, b, m):
+    return [("main", "scen.go", ["func start%d[X any](_ X) {" % k, "\ty := 0", "\tgo func() { %s" % m, "\t\ty++"] +
+             _ind(_entry_body(b)) + ["\t}()", "}"])], ["start%d[string](\"s\")" % k]
+
+
+def g_in_generic_method(k, b, m):
+    return [("main", "scen.go", ["func e%d() {" % k] + _entry_body(b) + ["}", "", "type h%d[X any] struct{ x X }" % k, "",
+                                 "func (h%d[X]) Start() {" % k, "\tgo e%d() %s" % (k, m), "}"])], ["h%d[int]{}.Start()" % k]
+
+
+def g_in_init_closure(k, b, m):
+    # the go statement is in an anonymous function of the (synthetic) package initializer
+    return [("main", "scen.go", ["func e%d() {" % k] + _entry_body(b) + ["}", "",
+                                 "var v%d = func() int {" % k, "\tif len(os.Args) > 1 && os.Args[1] == \"%d\" {" % k,
+                                 "\t\tgo e%d() %s" % (k, m), "\t}", "\treturn 0", "}()"])], ["_ = v%d" % k]
+
+
+def g_in_init_func(k, b, m):
+    return [("main", "scen.go", ["func e%d() {" % k] + _entry_body(b) + ["}", "",
+                                 "func init() {", "\tif len(os.Args) > 1 && os.Args[1] == \"%d\" {" % k,
+                                 "\t\tgo e%d() %s" % (k, m), "\t}", "}"])], []
+
+
 GO_FORMS = [
     ("static", g_static), ("anon", g_anon), ("closure", g_closure), ("method", g_method), ("ptr-method", g_ptrmethod),
     ("embedded-method", g_embedded), ("method-expr", g_methodexpr), ("bound-method-value", g_bound),
@@ -216,6 +251,9 @@ GO_FORMS = [
     ("fv-param", g_fv_param), ("nested-go", g_nested), ("two-sites", g_two_sites),
     ("callee-in-lib", _pkg_callee("lib", "lib.go")), ("callee-in-lib2", _pkg_callee("lib", "lib2.go")),
     ("callee-in-libx", _pkg_callee("libx", "libx.go")), ("callee-in-exfile", g_exfile), ("go-in-lib", g_go_in_lib),
+    ("in-generic-static", g_in_generic_static), ("in-generic-invoke", g_in_generic_invoke),
+    ("in-generic-closure", g_in_generic_closure), ("in-generic-method", g_in_generic_method),
+    ("in-init-closure", g_in_init_closure), ("in-init-func", g_in_init_func),
 ]
 GO_LABELS = [g[0] for g in GO_FORMS]
 
@@ -339,8 +377,8 @@ class Dump:
         self.E = {}          # k -> raw excludes
         self.obs = {"IG": {}, "IR": set(), "ID": set(), "IX": {}, "MG": {}, "MR": set(), "MD": set(), "MX": {}}
         self.err = []
-        self.go_at = {}      # posid -> (owner fid, form, arg)
-        self.dyn_targets = {}  # posid -> candidate fids (dynamic go statements)
+        self.go_at = {}      # posid -> [(owner fid, form, arg)]: a generic body and each of its instances share a position
+        self.dyn_targets = {}  # (owner fid, posid) -> candidate fids (dynamic go statements)
         self.dyn_defer = {}  # fid -> list of candidate lists (dynamic defers)
         if path:
             self.read(path)
@@ -361,14 +399,14 @@ class Dump:
                 pid = None if p[5] == "-" else int(p[5])
                 self.I.setdefault(fid, []).append((p[2], p[3], p[4], pid))
                 if p[2] == "go":
-                    self.go_at[pid] = (fid, p[3], p[4])
+                    self.go_at.setdefault(pid, []).append((fid, p[3], p[4]))
             elif t == "P":
                 self.P[int(p[1])] = p[2]
             elif t == "T":
                 fid = int(p[1])
                 cands = [int(x) for x in p[4:]]
                 if p[3] == "go":
-                    self.dyn_targets[int(p[2])] = cands
+                    self.dyn_targets[(fid, int(p[2]))] = cands
                 else:
                     self.dyn_defer.setdefault(fid, []).append(cands)
             elif t == "E":
@@ -427,9 +465,15 @@ class Dump:
                 res.append(fid)
         return res
 
-    def stmt_owner_pkg_fn(self, fid):
-        """the function whose package/file decides whether the go statement lies in excluded code"""
-        return fid
+    def stmt_filtered(self, pid, raw):
+        """does the go statement at position pid lie in allow-listed / excluded code?  Decided on the statement's own file
+        and on the package of the enclosing function (generic instances have no package: their origin at the same
+        position has)."""
+        owners = [o for (o, _, _) in self.go_at.get(pid, [])]
+        pkgs = [self.F[o]["pkg"] for o in owners if self.F[o]["pkg"]]
+        mm = re.match(r"(.*):(\d+):(\d+)$", self.P.get(pid, ""))
+        file = mm.group(1) if mm else ""
+        return any(self.allowlisted(p) for p in pkgs) or self.excluded(file, raw)
 
 
 def is_wrapper(fn):
@@ -560,7 +604,9 @@ def run(chk):
         if D.err:
             raise vlib.BuildError("c19dump could not interpret the analyzer's output", "\n".join(D.err[:20]))
         stats["functions"] += len(D.F)
-        stats["go_instrs"] += len(D.go_at)
+        stats["go_instrs"] += sum(len(v) for v in D.go_at.values())
+        stats["go_instrs_in_synthetic"] = stats.get("go_instrs_in_synthetic", 0) + sum(
+            1 for v in D.go_at.values() for (o, _, _) in v if D.F[o]["synth"])
         stats["defer_instrs"] += sum(1 for ins in D.I.values() for i in ins if i[0] == "defer")
         stats["configs"] += len(cfgs)
 
@@ -637,7 +683,7 @@ def run(chk):
         # ---- (b) the executable spec on static / closure go statements, under every exclude configuration
         for k, raw in enumerate(cfgs):
             ix = D.obs["IX"].get(k, {})
-            for pid, (owner, form, arg) in D.go_at.items():
+            for pid, owner, form, arg in [(pid, o, fm, a) for pid, v in D.go_at.items() for (o, fm, a) in v]:
                 if form not in ("static", "closure"):
                     continue
                 f = int(arg)
@@ -647,8 +693,9 @@ def run(chk):
                 stats["spec_checks"] += 1
                 if pid not in ix.get(f, ()):
                     lab = label(pid, f)
-                    what = ("go statement at %s launches %s (%s callee, no recovering defer, not excluded with -exclude %s) but the "
-                            "report %s" % (D.P[pid], D.F[f]["name"], form, raw,
+                    what = ("go statement at %s in %s launches %s (%s callee, no recovering defer, not excluded with -exclude %s) but the "
+                            "report %s" % (D.P[pid], D.F[owner]["name"] + (" [synthetic: %s]" % D.F[owner]["synth"] if D.F[owner]["synth"] else ""),
+                                           D.F[f]["name"], form, raw,
                                            "lists it without this creation site" if f in ix else "does not list it"))
                     violation(lab, what, mk_replay(lab, what, pid, k))
 
@@ -746,8 +793,10 @@ def run(chk):
                     # e.g. `go panic(..)`/compiler wrappers: no go instruction with a function callee at that line
                     stats["out_of_scope_crashes"] += 1
                     continue
-                owner, form, arg = D.go_at[pid]
-                if form == "builtin":
+                sites = D.go_at[pid]
+                forms = sorted({fm for (_, fm, _) in sites})
+                form = "+".join(forms)
+                if forms == ["builtin"]:
                     stats["out_of_scope_crashes"] += 1     # go panic(..): there is no launched function to report
                     continue
                 cands = D.function_at(efile, eline)
@@ -766,10 +815,7 @@ def run(chk):
                     continue
                 for k, raw in enumerate(cfgs):
                     # the go statement must lie outside the allow-listed / excluded code
-                    oal, oex = D.fn_filtered(owner, raw)
-                    if D.F[owner]["pkg"] is None:
-                        oal, oex = False, False
-                    if oal or oex:
+                    if D.stmt_filtered(pid, raw):
                         continue
                     stats["native_checked"] += 1
                     ix = D.obs["IX"].get(k, {})
@@ -780,13 +826,20 @@ def run(chk):
                         stats["wrapper_accepted"] += 1     # reported as M$bound / M$thunk with this creation site
                         continue
                     ename = D.F[plain[0]]["name"]
-                    if form == "invoke":
+                    static_targets = [int(a) for (_, fm, a) in sites if fm in ("static", "closure")]
+                    if static_targets:
+                        # some function (e.g. the instance of a generic function) launches a syntactically known callee here
+                        flt = [D.fn_filtered(t, raw) for t in static_targets]
+                        if all(al for al, _ in flt):
+                            key = "go-callee-allowlisted"
+                        elif all(al or exd for al, exd in flt):
+                            key = "go-callee-excluded"
+                        else:
+                            key = label(pid, plain[0])
+                    elif "invoke" in forms:
                         key = "go-invoke"
-                    elif form == "value":
+                    elif "value" in forms:
                         key = "go-funcvalue"
-                    elif form in ("static", "closure"):
-                        al, exd = D.fn_filtered(int(arg), raw)
-                        key = "go-callee-allowlisted" if al else "go-callee-excluded" if exd else label(pid, plain[0])
                     else:
                         key = "go-form-%s" % form
                     what = ("native run crashed with a panic in goroutine entry %s (%s:%d, no recovering defer) created by the go statement "
